@@ -556,7 +556,7 @@ pub const F9_STMTS2: [&str; 34] = [
     "p++;", "p--;", "++p;", "--p;", "p = arr;", "p += 2;",
     "sarr[X] = s;", "s = sarr[X];", "sarr[Y] = s;", "s = sarr[Y];", "sarr[1] = t;", "sarr[X]++;", "s = sarr[Y] + 1;", "sarr[Y] += a;",
     "t = s;", "s = t + 1;", "s = a;", "s -= t;", "s &= 0xff;", "s |= t;", "if (s < t) r = 1; else r = 2;", "if (s) r = 1;", "r = g(a);", "h(a, b);", "load(a);", "store(a);", "a = arr[X] + b;", "arr[X] = arr[Y];",
-    "sarr[Y] <<= 1;", "sarr[X] >>= 1;", "sarr[X] <<= 1;", "X = a; a = 5; X = a;", "b = a; a = Y; r = a;", "Y = s; s = 3; Y = s;",
+    "sarr[Y] <<= 1;", "sarr[X] >>= 1;", "sarr[X] <<= 1;", "X = a; a = 3; X = a;", "b = a; a = Y; r = a;", "Y = s; s = 3; Y = s;",
 ];
 
 /// (name, extra option, declaration text)
